@@ -155,6 +155,8 @@ def mir_facts(repo=None, features=None):
                         "MIRFACTS_OUT": tmp,
                         "MIRFACTS_CRATE": "qrlew",
                         "CARGO_TARGET_DIR": target,
+                        # no incremental session: rustc's dep-graph serialisation can ICE after the driver forced extra queries, and nothing is reused anyway (the fingerprint is deleted)
+                        "CARGO_INCREMENTAL": "0",
                     }
                 )
                 env.pop("RUSTC_WRAPPER", None)
